@@ -228,7 +228,8 @@ def grid_dist(metric, u, v):
     return math.sqrt(sum(x * x for x in d))
 
 def gen_ctx_case(rng, lps=None, nps=None, max_ops=6, max_rows=30, arm_changes=True, warm=False, label=None,
-                 reward_styles=None, queries=True, grid=4, force_dim=None, fit_prob=0.1, swap_prob=0.06, ties=False, lints_nbhd=False, force_scale=False, njobs=True):
+                 reward_styles=None, queries=True, grid=4, force_dim=None, fit_prob=0.1, swap_prob=0.06, ties=False, lints_nbhd=False, force_scale=False, njobs=True,
+                 nnprob_arm_changes=False):
     npk = rng.choice(nps if nps is not None else ["none"] + NP_KINDS)
     if lps is None:
         lps = CF_KINDS + LIN_KINDS if npk != "none" else LIN_KINDS
@@ -309,7 +310,9 @@ def gen_ctx_case(rng, lps=None, nps=None, max_ops=6, max_rows=30, arm_changes=Tr
     if npk == "lsh" and rng.random() < 0.3:
         p = [rng.random() for _ in arms]; tot = sum(p); npol[3] = [x / tot for x in p]
     n_ops = rng.randint(1, max_ops) if max_ops >= 1 else 0
-    fixed_arms = npol is not None and npol[0] in ("radius", "lsh") and npol[3] is not None
+    # finding D24: with no_nhood_prob_of_arm given, an arm change makes predict raise on an empty neighbourhood (the list is not resized);
+    # such histories are generated (the model rejects the query too) unless the caller asks for fixed arms
+    fixed_arms = (not nnprob_arm_changes) and npol is not None and npol[0] in ("radius", "lsh") and npol[3] is not None
     for _ in range(n_ops):
         c = rng.random()
         if c < 0.3:
